@@ -5,7 +5,7 @@ import signac.project as P
 from vflib.hutil import pick, reached, part_ok, kf_filter, spy, tier, fresh_path, nt, ci, cb
 
 CODE = ["signac.project.Project._job_dirs", "signac.project.JOB_ID_REGEX", "signac.job.Job (init, document, clear, reset, remove, statepoint edits/assignment, update_statepoint, move, copy/pickle support)", "signac.job._StatePointDict._save", "signac.project.Project (open_job, clone, update_cache, check, __len__/__iter__/__contains__)"]
-BOUNDS = {"histories": "closed universe {a:0|1} x {b absent|0}; initial workspace = any subset (quick: 3 subsets, handles on {a:0}/{a:1}) with/without document+file; two independent handles (different state points) plus shallow copies; 28 operation instances; history length <= 2 (quick) / 3 (thorough, restricted initial states); two projects; after EVERY step: ids/state points/documents/files through a fresh session == model, check() passes, directory name == hash of its state point file, len/iter/contains agree, no temp/backup files, live handles describe their job", "listing": "E3: all strings (unbounded length) over z3's character sort; E1: directory names of length in {0,1,31,32,33,40} built from a fill character, one deviating character at a position in {0,1,16,30,31,32} and a last character, each from {a,0,g,.,A}"}
+BOUNDS = {"histories": "closed universe {a:0|1} x {b absent|0}; initial workspace = 3 subsets (quick, handles on {a:0}/{a:1}) / 4 subsets x with/without document+file x every unordered pair of handle state points (thorough); two independent handles (different state points) plus shallow copies; 28 operation instances; history length <= 2 (quick, thorough) / 3 (thorough, from one initial state); two projects; after EVERY step: ids/state points/documents/files through a fresh session == model, check() passes, directory name == hash of its state point file, len/iter/contains agree, no temp/backup files, live handles describe their job", "listing": "E3: all strings (unbounded length) over z3's character sort; E1: directory names of length in {0,1,31,32,33,40} built from a fill character, one deviating character at a position in {0,1,16,30,31,32} and a last character, each from {a,0,g,.,A}"}
 OUTSIDE = ["universes with more keys / values / nesting in the history harness (nested edits: C04)", "H5 stores (h5py not installed)", "handles pickled into another process (in-process pickle round trips: C04)", "histories longer than 3"]
 STUBS = ["os.listdir of the workspace returns the symbolic name (E1 listing harness)"]
 ASSUMPTIONS = []
@@ -129,7 +129,8 @@ def h_hist(mask: int, payload: int, i0: int, i1: int, s0: int, o0: int, s1: int,
     assert (n >= 2 or (o1 == 0 and s1 == 0)) and (n >= 3 or (o2 == 0 and s2 == 0)) and 0 <= byid <= 3
     assert tier() != "quick" or byid in (0, 1)
     assert s0 == 0   # by symmetry of the two slots the first operation uses slot 0
-    assert (n <= 2 and mask in (0, 1, 3) and payload == 3 and i0 < 2 and i1 < 2) if tier() == "quick" else (n <= 2 or (mask in (1, 3) and payload == 3 and i0 == 0))
+    assert (n <= 2 and mask in (0, 1, 3) and payload == 3 and i0 < 2 and i1 < 2) if tier() == "quick" else (
+        (n <= 2 and mask in (0, 1, 3, 15) and payload in (0, 3) and i0 < i1 and byid <= 1) or (n == 3 and mask == 1 and payload == 3 and i0 == 0 and i1 == 1 and byid == 0))
     fresh_path()
     mask, payload, i0, i1, n, byid = ci(mask, 0, 15), ci(payload, 0, 3), ci(i0, 0, 3), ci(i1, 0, 3), ci(n, 1, 3), ci(byid, 0, 3)
     steps = [(ci(s0, 0, 1), ci(o0, 0, NOP - 1)), (ci(s1, 0, 1), ci(o1, 0, NOP - 1)), (ci(s2, 0, 1), ci(o2, 0, NOP - 1))][:n]
